@@ -185,6 +185,13 @@ Definition defer_monitor_no_orphans (c : defer_case) : bool :=
 (** ... and additionally modulo the arrival order of nested groups (KEPT FINDING "child before parent") *)
 Definition defer_monitor_modulo_order_no_orphans (c : defer_case) : bool := defer_monitor_modulo_order c.
 
+(** C04 on deferred delivery: a failure inside a deferred group is contained exactly as null propagation says -
+    judged on the observed payloads with the two kept C13 findings set aside (orphan payloads removed, parents
+    first); errors must be plain errors *)
+Definition defer_monitor_contain (c : defer_case) : bool :=
+  let c' := reordered (without_orphans c) in
+  m_errors c && m_has_next c && m_order c' && m_merge c'.
+
 (** the model's own canonical (parent first) delivery satisfies the monitors *)
 Definition defer_monitor_on_model (c : defer_case) : bool :=
   jt_eqb (merge_payloads (model_payloads c)) (expected_content c)
